@@ -75,6 +75,18 @@ def cases(tier, seed):
                     if 'strip' in ' '.join(w) and t != t.rstrip():
                         continue
                     yield {'text': t, 'akind': ak, 'wrap': w, 'mem': m}
+    # ---- borrowed workloads: the cases of C05 (matchers/transformers over many source kinds) and C10 (programs, stdin
+    # built from several parts, program output as text source) are executed here with M4 switched on and a small
+    # memory buffer; only M4 decides (the borrowed checks' own oracles are ignored in this check)
+    from vf.props import c05 as _c05, c10 as _c10
+    step5 = 12 if tier == 'quick' else 2
+    step10 = 10 if tier == 'quick' else 2
+    for k, c in enumerate(_c05.cases(tier, seed)):
+        if k % step5 == 0:
+            yield {'kind': 'borrow', 'from': 'c05', 'case': c, 'mem': (1, 7, 64, 8192)[(k // step5) % 4]}
+    for k, c in enumerate(_c10.cases(tier, seed)):
+        if k % step10 == 0:
+            yield {'kind': 'borrow', 'from': 'c10', 'case': c, 'mem': (1, 5, 33, 8192)[(k // step10) % 4]}
     rng = common.rng_for(seed, ID)
     n_rand = 150 if tier == 'quick' else 12000
     for _ in range(n_rand):
@@ -227,6 +239,10 @@ def setup_worker(ctx):
     ses = ctx.get_session()
     ses.main_program()
     m4.install()
+    from vf.props import c05 as _c05, c10 as _c10
+    for mod in (_c05, _c10):
+        if hasattr(mod, 'setup_worker'):
+            mod.setup_worker(ctx)
 
 
 def teardown_worker(ctx):
@@ -234,7 +250,69 @@ def teardown_worker(ctx):
     return {'m4.' + k: v for k, v in m4.COUNT.items()}
 
 
+def run_borrowed(case, ctx):
+    from vf import m4
+    import importlib
+    ses = ctx.get_session()
+    mod = importlib.import_module('vf.props.' + case['from'])
+    m4.reset()
+    # M4 state is reset per case here; the borrowed run_case may execute several runs: collect over all of them
+    collected = []
+    orig_reset = m4.reset
+
+    def keep_and_reset():
+        collected.extend(m4.VIOLATIONS)
+        orig_reset()
+
+    cmp0 = m4.COUNT['comparisons']
+    ses.default_mem_buff_size = case['mem']
+    try:
+        try:
+            r = mod.run_case(case['case'], ctx)
+        finally:
+            ses.default_mem_buff_size = None
+    except Exception as ex:
+        m4.reset()
+        return {'classes': [], 'viol': [], 'inconclusive': ['borrowed %s case raised %r' % (case['from'], ex)]}
+    collected.extend(m4.VIOLATIONS)
+    m4.reset()
+    ctx.count('c14.borrowed_cases_run')
+    ctx.count('c14.borrowed_m4_comparisons', m4.COUNT['comparisons'] - cmp0)
+    viol = []
+    if r.get('viol') and case['mem'] != 8192:
+        # the borrowed check's own oracle disagrees under a small memory buffer: does it agree with the default size?
+        # (a verdict / output that depends on mem_buff_size is a C14 violation; anything else is that check's business)
+        try:
+            r2 = mod.run_case(case['case'], ctx)
+        except Exception:
+            r2 = None
+        m4.reset()
+        ctx.count('c14.borrowed_buffer_size_rechecks')
+        if r2 is not None and not r2.get('viol'):
+            viol.append({'what': 'C14 (workload of %s) outcome depends on the memory buffer size: with mem_buff_size=%d: %s; '
+                                 'with the default size the case behaves as its reference says' %
+                                 (case['from'].upper(), case['mem'], r['viol'][0].get('what', '')[:300]),
+                         'detail': {'mechanism': 'mem-buff-size-dependence', 'borrowed_from': case['from'],
+                                    'mem': case['mem'], 'first_violation': common.jsonable(r['viol'][0])}})
+    seen = set()
+    for v in collected:
+        key = (v['detail'].get('mechanism'), v['detail'].get('cls'), v['detail'].get('first'), v['detail'].get('second'))
+        if key in seen:
+            continue
+        seen.add(key)
+        dd = dict(v['detail'])
+        dd.update({'m4': True, 'input_text': dd.get('text') or dd.get('v1') or '', 'borrowed_from': case['from'],
+                   'mem': case['mem']})
+        viol.append({'what': 'C14 (workload of %s, mem %d) %s' % (case['from'].upper(), case['mem'], v['what']),
+                     'detail': dd})
+    return {'classes': [('borrow', case['from'], case['mem'], 'm4-compared' if m4.COUNT['comparisons'] > cmp0 else
+                         'no-comparison')], 'viol': viol, 'inconclusive': [],
+            'evaluations': max(1, r.get('evaluations', 1))}
+
+
 def run_case(case, ctx):
+    if case.get('kind') == 'borrow':
+        return run_borrowed(case, ctx)
     from vf import m4
     ses = ctx.get_session()
     d = ses.new_case_dir()
